@@ -16,23 +16,41 @@ import (
 // interleavings of Select with AddConn/RemoveConn: every schedule of programs
 // A and F up to the preemption bound, on the sched build. The check script
 // runs this with the second binary and passes the result to C06.
+//
+// C14-sched: the same for C14: notifications are a faithful log of the view
+// only if they are issued in the order of the state changes; programs B, G
+// and H interleave the expiry sweep, liveness evaluation and incoming
+// datagrams, and compare the routing table (the fold of the notifications)
+// with the gossip view at quiescence.
 func init() {
-	register("C06-sched", func(args []string) int {
-		run := evid.NewRun("C06", "model_checking")
+	auxSched("C06", []string{"A-", "F-"}, func(sig string) bool {
+		return strings.HasPrefix(sig, "select") || sig == "panic"
+	})
+	auxSched("C14", []string{"B-", "G-", "H-"}, func(sig string) bool {
+		return strings.HasPrefix(sig, "routing-table") || strings.HasPrefix(sig, "expired-node") || strings.HasPrefix(sig, "remote-node") || sig == "panic"
+	})
+}
+
+func auxSched(prop string, progs []string, accept func(sig string) bool) {
+	register(prop+"-sched", func(args []string) int {
+		run := evid.NewRun(prop, "model_checking")
 		bound := 2
 		if run.Thorough() {
 			bound = 3
 		}
-		execs, points, complete := runSched(run, "C06", pick("A-", "F-"), bound, 600, func(sig string) bool {
-			return strings.HasPrefix(sig, "select") || sig == "panic"
-		})
-		out := map[string]any{"technique": "every schedule up to the preemption bound (cooperative scheduler at the real code's mutexes)", "programs": []string{"A-add-remove-select", "F-forward-while-connecting", "F-forward-while-connecting-with-remote"},
+		ps := pick(progs...)
+		execs, points, complete := runSched(run, prop, ps, bound, 600, accept)
+		var names []string
+		for _, p := range ps {
+			names = append(names, p.Name)
+		}
+		out := map[string]any{"technique": "every schedule up to the preemption bound (cooperative scheduler at the real code's mutexes)", "programs": names,
 			"schedules": execs, "scheduling_points": points, "preemption_bound": bound, "complete": complete, "violations": run.Violations()}
 		b, _ := json.Marshal(out)
 		if p := os.Getenv("VERIF_AUX_OUT"); p != "" {
 			_ = os.WriteFile(p, b, 0o644)
 		}
-		fmt.Printf("C06-sched: schedules=%d points=%d complete=%v violations=%d\n", execs, points, complete, run.Violations())
+		fmt.Printf("%s-sched: schedules=%d points=%d complete=%v violations=%d\n", prop, execs, points, complete, run.Violations())
 		if run.Violations() > 0 {
 			return 1
 		}
@@ -44,7 +62,7 @@ func init() {
 func schedPass(run *evid.Run) {
 	p := os.Getenv("VERIF_SCHED_JSON")
 	if p == "" {
-		run.Assume("scheduler pass (C06-sched) not run in this invocation")
+		run.Assume("scheduler pass not run in this invocation")
 		return
 	}
 	var rr map[string]any
